@@ -13,6 +13,7 @@ FAMILIES = {
     "clone": "harness.check_clone",
     "merge": "harness.check_merge",
     "links": "harness.check_links",
+    "validation": "harness.check_validation",
 }
 # property -> families whose judges print verdicts for it
 PROPS = {
@@ -22,6 +23,7 @@ PROPS = {
     "C11": ["clone", "values"],
     "C13": ["merge"],
     "C12": ["links"],
+    "C08": ["validation"],
 }
 EXPLAIN = {}
 
